@@ -63,7 +63,8 @@ def make_geometry(spec):
     if k == "image_vis":
         # any factorisation; visual only => par2fun is the identity on vectors
         a = max(d for d in range(1, n + 1) if n % d == 0 and d * d <= n)
-        return cuqi.geometry.Image2D((a, n // a), visual_only=True)
+        # (the flag may be a numpy boolean - the result of a comparison - as well as a Python one)
+        return cuqi.geometry.Image2D((a, n // a), visual_only=np.True_ if n % 2 else True)
     if k == "kl":
         return cuqi.geometry.KLExpansion(np.linspace(0, 1, n), decay_rate=spec["decay"], normalizer=spec["norm"],
                                          num_modes=spec["num_modes"])
